@@ -39,6 +39,7 @@ type caStub struct {
 	NCerts   int      // certificates per request (default 1)
 	Comments []string // comments returned per call (nil: none)
 	ValidAt  uint64   // base time for issued certificates
+	Granted  []uint64 // per certificate of one reply: validity granted instead of the requested one (0 / missing = as requested)
 	events   *[]string
 }
 
@@ -71,8 +72,12 @@ func (s *caStub) Sign(ctx context.Context, req *proto.SSHCertificateSigningReque
 	var certs []ssh.PublicKey
 	for i := 0; i < n; i++ {
 		va := s.ValidAt
+		granted := req.Validity
+		if i < len(s.Granted) && s.Granted[i] != 0 && s.Granted[i] < granted {
+			granted = s.Granted[i] // a CA may grant less than was asked for, never more
+		}
 		c := &ssh.Certificate{Key: pub, Serial: uint64(idx*10 + i), CertType: ssh.UserCert, KeyId: req.KeyId, ValidPrincipals: req.Principals,
-			ValidAfter: va, ValidBefore: va + req.Validity, Permissions: ssh.Permissions{Extensions: req.Extensions}}
+			ValidAfter: va, ValidBefore: va + granted, Permissions: ssh.Permissions{Extensions: req.Extensions}}
 		if err := c.SignCert(rand.Reader, fix.SSHCA()); err != nil {
 			panic(err)
 		}
